@@ -2068,7 +2068,9 @@ impl<W: std::io::Write + std::io::Seek> Encoder<W> {
                         use crate::metadata::MetadataBlock;
 
                         let seektable = SeekTable {
+                            // no more points than a SEEKTABLE block can hold
                             points: encoded_points
+                                .take(SeekTable::MAX_POINTS)
                                 .map(|p| p.into())
                                 .collect::<Vec<_>>()
                                 .try_into()
